@@ -133,6 +133,17 @@ def work(ctx, item):
         expect(ctx, ['lookup-by-role', disp, role.upper()], want, 'lookup-by-role', 'lookup-by-role', {'kind': 'cli', 'argv': ['lookup-by-role', disp, role]})
     w = impl.call(lambda: '\n'.join(md[name]['versions'].keys()))
     expect(ctx, ['get-versions', disp, '-n'], w, 'get-versions', 'get-versions', {'kind': 'cli', 'argv': ['get-versions', disp, '-n']})
+    # get-info: a report about the index entry of this name (the typography is the CLI's own; what it reports is the entry)
+    got = run_cli(['get-info', disp])
+    ctx.case(('get-info', disp), True, 'get-info')
+    ent = md[name]
+    if got[0] != 'ok':
+        ctx.violation('cli.get-info', 'raises', 'bse get-info %s fails (%s) although the index has the entry' % (disp, got[1]), {'kind': 'cli', 'argv': ['get-info', disp]})
+    else:
+        for needle in [ent['display_name'], ent['description'], ent['role'], ent['family'], ent['latest_version'], ','.join(ent['function_types'])] + list(ent['versions']):
+            if needle not in got[1]:
+                ctx.violation('cli.get-info', 'content', 'bse get-info %s does not report %r of the index entry' % (disp, needle), {'kind': 'cli', 'argv': ['get-info', disp]})
+                break
 
 
 def listings(ctx):
@@ -356,6 +367,8 @@ def run(ctx):
         pairs = store.all_pairs(md)
     else:
         pairs = [(n, md[n]['latest_version']) for n in store.sample_names(ctx.rng, 26, md)]
+        # names whose index key is not the lower-cased name (* and / are escaped in keys)
+        pairs += [(n, md[n]['latest_version']) for n in ('6-31g_st_', '6-311+g_st__st_', 'cc-pvdz(fi_sl_sf_sl_fw)') if n in md]
         multi = [k for k, v in md.items() if len(v['versions']) > 1]
         pairs += [(k, sorted(md[k]['versions'])[0]) for k in ctx.rng.sample(multi, 4)]
     store.parallel(ctx, work, pairs)
